@@ -147,10 +147,8 @@ ThWrapped(k, a, olo, on) == FitsPadding(k, a) => PerConv(k, Wrapped(a, k.n), olo
 (* ---- MedianArrayFilter3D / MinimalArrayFilter3D ------------------------------- *)
 \* "extracting all neigbours (given by the mask) to a 1D array"; "handles edges by taking a median of all
 \* available pixels"; mask size = 2*radius+1 per axis
-Neighbours(a, p, r) ==
-  LET box == { x \in ((p[1] - r[1])..(p[1] + r[1])) \X ((p[2] - r[2])..(p[2] + r[2])) \X ((p[3] - r[3])..(p[3] + r[3])) : InRange(a, x) }
-      ord == CHOOSE f \in [1..Cardinality(box) -> box] : \A i, j \in 1..Cardinality(box) : i # j => f[i] # f[j]
-  IN  [i \in 1..Cardinality(box) |-> a.v[Off(a, ord[i])]]
+NeighbourBox(a, p, r) ==
+  { x \in ((p[1] - r[1])..(p[1] + r[1])) \X ((p[2] - r[2])..(p[2] + r[2])) \X ((p[3] - r[3])..(p[3] + r[3])) : InRange(a, x) }
 CountLess(s, v) == Cardinality({ i \in 1..Len(s) : s[i] < v })
 CountLeq(s, v) == Cardinality({ i \in 1..Len(s) : s[i] <= v })
 \* k-th element (0-based) of the sorted sequence
@@ -171,12 +169,23 @@ MinimalFilter(a, r) == Arr(a.lo, a.n, [q \in 1..Size(a.n) |-> Minimum(NeighbourV
 Scaled2(a, f) == Arr(a.lo, a.n, [q \in 1..Size(a.n) |-> f * a.v[q]])
 \* ArrayFunctionObject::is_trivial "Should return true when the operations won't modify the object at all"
 MaskIsIdentity(r) == r = <<0, 0, 0>>
+\* the fast enumeration of the neighbourhood agrees with the declarative one (same values with the same multiplicities);
+\* minimum <= median <= maximum; a mask of radius 0 is the identity; constant data stay constant
 ThMedian(a, r) ==
-  /\ \A q \in 1..Size(a.n) : LET s == NeighbourVals(a, Pos(a.lo, a.n, q - 1), r) IN
-        /\ Len(s) = Len(Neighbours(a, Pos(a.lo, a.n, q - 1), r))
-        /\ 2 * Minimum(s) <= Median2(s) /\ \A i \in 1..Len(s) : Median2(s) <= 2 * s[i] \/ CountLess(s, s[i]) < Len(s) \div 2 + 1
+  /\ \A q \in 1..Size(a.n) :
+        LET s == NeighbourVals(a, Pos(a.lo, a.n, q - 1), r)
+            box == NeighbourBox(a, Pos(a.lo, a.n, q - 1), r) IN
+        /\ Len(s) = Cardinality(box) /\ Len(s) >= 1
+        /\ \A v \in { s[i] : i \in 1..Len(s) } \cup { a.v[Off(a, x)] : x \in box } :
+              CountLeq(s, v) = Cardinality({ x \in box : a.v[Off(a, x)] <= v })
+        /\ 2 * Minimum(s) <= Median2(s) /\ \A v \in { s[i] : i \in 1..Len(s) } : (\A i \in 1..Len(s) : s[i] <= v) => Median2(s) <= 2 * v
+        \* at least half of the values lie on either side of the median
+        /\ 2 * Cardinality({ i \in 1..Len(s) : 2 * s[i] <= Median2(s) }) >= Len(s)
+        /\ 2 * Cardinality({ i \in 1..Len(s) : 2 * s[i] >= Median2(s) }) >= Len(s)
   /\ MaskIsIdentity(r) => (Median2Filter(a, r) = Scaled2(a, 2) /\ MinimalFilter(a, r) = a)
-  /\ (\A i \in 1..Size(a.n) : a.v[i] = a.v[1]) => Median2Filter(a, r) = Scaled2(a, 2)
+  /\ (\A i \in 1..Size(a.n) : a.v[i] = a.v[1]) => (Median2Filter(a, r) = Scaled2(a, 2) /\ MinimalFilter(a, r) = a)
+\* wrapping twice is wrapping once, and the wrapped data fit the padding
+ThWrapTwice(a, L) == LET w == Wrapped(a, L) IN Wrapped(w, L) = w /\ \A d \in Axes : w.n[d] <= L[d]
 
 (* ---- TruncateToCylindricalFOVImageProcessor ------------------------------------ *)
 \* "sets voxels to 0 outside a given radius"; truncate_rim: "sets to zero voxels within rim_truncation_image of the
